@@ -880,8 +880,43 @@ def _isclose(a, b, rtol=1e-05, atol=1e-08, equal_nan=False):
 
 @implements('interp')
 def _interp(x, xp, fp, left=None, right=None, period=None):
+    if not has_sym(x) and not has_sym(xp) and not has_sym(period) and not has_sym(left) \
+            and not has_sym(right):
+        # concrete abscissae: np.interp is an affine map of fp; obtain its matrix from the
+        # real numpy (this also covers period=)
+        xs = np.asarray(np.asarray(_as_obj(x)).tolist(), dtype=float)
+        xps = np.asarray(np.asarray(_as_obj(xp)).tolist(), dtype=float)
+        fpo = np.asarray(_as_obj(fp), dtype=object).ravel()
+        n = len(xps)
+        kw = {} if period is None else {'period': period}
+        if period is None:
+            kw.update(left=left, right=right)
+        shape = xs.shape
+        xf = xs.ravel()
+        const = np.interp(xf, xps, np.zeros(n), **({} if period is not None else
+                                                    {'left': 0.0 if left is None else left,
+                                                     'right': 0.0 if right is None else right}),
+                          **({'period': period} if period is not None else {}))
+        cols = []
+        for i in range(n):
+            e = np.zeros(n)
+            e[i] = 1.0
+            kw2 = {'period': period} if period is not None else \
+                {'left': (None if left is None else 0.0), 'right': (None if right is None else 0.0)}
+            cols.append(np.interp(xf, xps, e, **kw2))
+        out = np.empty(len(xf), dtype=object)
+        for j in range(len(xf)):
+            acc = float(const[j])
+            for i in range(n):
+                w = cols[i][j]
+                if w != 0.0:
+                    acc = P.add(acc, P.mul(float(w), fpo[i]))
+            out[j] = acc
+        if shape == ():
+            return out[0]
+        return out.reshape(shape).view(SymArray)
     if period is not None:
-        raise SymError("interp period")
+        raise SymError("interp period with symbolic abscissae")
     xp = np.asarray(_as_obj(xp), dtype=object).ravel()
     fp = np.asarray(_as_obj(fp), dtype=object).ravel()
     if len(xp) != len(fp):
